@@ -71,7 +71,8 @@ def gen_program(g):
         del dframes[max(2, len(dframes) // k):-1]      # the director advances one frame per run of its own: keep the run length comparable
     pos = g.randint(0, len(framers))
     framers.insert(pos, director)
-    return {"P": P, "program": {"house": "h", "framers": framers}}
+    # the run starts at time t0 (the skedder's start stamp): every schedule is relative to it
+    return {"P": P, "program": {"house": "h", "framers": framers}, "t0": _side(g).choice([0, 0, 0, 10, 2.5, 64, 1000])}
 
 
 class C02(Check):
@@ -89,7 +90,7 @@ class C02(Check):
                   "stub": ["script file (served from memory)", "Rec action, probe runner (harness)"]}
     assumptions = ["'tick time' is n*P in exact arithmetic from the decimal literals; a last-bit difference in a reported stamp is not a violation, "
                    "a run happening in a different tick is"]
-    required_probes = ["period-multiple", "period-nonmultiple", "decimal-period", "period-bid", "aborted", "skipped-tick", "idle-tick"]
+    required_probes = ["period-multiple", "period-nonmultiple", "decimal-period", "period-bid", "aborted", "skipped-tick", "idle-tick", "nonzero-start-stamp"]
     quick_runs = 6000
     thorough_runs = 300000
     shrink_fields = []
@@ -114,7 +115,10 @@ class C02(Check):
         P = Fraction(plan["P"])
         prog = plan["program"]
         script = emit(prog)
-        res = run_script(script, period=float(plan["P"]))
+        t0 = float(plan.get("t0", 0))
+        if t0:
+            out.probe("nonzero-start-stamp")
+        res = run_script(script, period=float(plan["P"]), stamp=t0)
         if not res.built or res.exc is not None:
             out.violate("build", "well-formed scheduling program rejected or run raised", "built=%s exc=%r\n%s" % (res.built, res.exc, script[:1500]))
             out.digest = tr.digest()
@@ -176,7 +180,7 @@ class C02(Check):
                 if e is None:
                     violation = ("missing-run", "tick %d (t=%s): %s is due (due %s, period %s) but the trace ends" % (tick, now, name, due[name], period[name]))
                     break
-                got_tick = int(round(e[1] / float(P))) if P else 0
+                got_tick = int(round((e[1] - t0) / float(P))) if P else 0
                 if e[3] != name or got_tick != tick:
                     violation = ("wrong-run", "tick %d (t=%s): expected %s to run (due %s, period %s); observed %s at stamp %r (tick %d)"
                                  % (tick, now, name, due[name], period[name], e[3], e[1], got_tick))
